@@ -15,6 +15,10 @@ pub struct FileTruth {
     pub size: u64,
     pub deleted: bool,
     pub elf: bool,
+    /// bytes of junk in front of the ELF image inside the file (archive-style mapping)
+    pub pad: u64,
+    /// the ELF image bytes (kept by the harness: the file may be deleted)
+    pub image: Vec<u8>,
 }
 
 pub struct Scenario {
@@ -66,9 +70,18 @@ pub fn random_name(rng: &mut Rng) -> Vec<u8> {
 
 /// Write a synthetic ELF file into `dir` and return the spec/regions that map it like a loader.
 pub fn add_elf_file(b: &mut Builder, rng: &mut Rng, dir: &str, name: &str, spec: ElfSpec, delete: bool, files: &mut Vec<FileTruth>) {
+    add_elf_file_ex(b, rng, dir, name, spec, delete, 0, files)
+}
+
+/// `pad` > 0: the ELF image sits at file offset `pad` (page multiple) inside a larger file, as
+/// when a library is mapped straight out of an archive.
+#[allow(clippy::too_many_arguments)]
+pub fn add_elf_file_ex(b: &mut Builder, rng: &mut Rng, dir: &str, name: &str, spec: ElfSpec, delete: bool, pad: u64, files: &mut Vec<FileTruth>) {
     let built = elf::build(&spec);
     let path = format!("{dir}/{name}");
-    std::fs::write(&path, &built.bytes).expect("write elf");
+    let mut content = vec![0x5au8; pad as usize];
+    content.extend_from_slice(&built.bytes);
+    std::fs::write(&path, &content).expect("write elf");
     let total_pages: u64 = built.loads.iter().map(|l| l.1 / PAGE).sum();
     let base = b.alloc(total_pages, 8 + rng.below(4));
     let mut at = base;
@@ -78,14 +91,14 @@ pub fn add_elf_file(b: &mut Builder, rng: &mut Rng, dir: &str, name: &str, spec:
             addr: at,
             len: *len,
             prot: *prot,
-            kind: RegionKind::File { path: path.clone(), offset: *off },
+            kind: RegionKind::File { path: path.clone(), offset: *off + pad },
             fill: Fill::Keep,
             pokes: Vec::new(),
             unlink_after: delete && i == n - 1,
         });
         at += len;
     }
-    files.push(FileTruth { path, spec, base, size: at - base, deleted: delete, elf: true });
+    files.push(FileTruth { path, spec, base, size: at - base, deleted: delete, elf: true, pad, image: built.bytes });
 }
 
 pub fn build_target(rng: &mut Rng, cfg: &TargetCfg) -> Result<Scenario, String> {
